@@ -20,8 +20,8 @@ RULE = ("full product scatterer x theory x {6 shifts x 2 detector kinds, 9 "
 ASSUMPTIONS = ["alphabet values only", "the T-matrix theory accepts only "
                "polarization (1,0), so only shift and mirror apply to it"]
 TOLERANCES = {"mirror-tmatrix": 1e-7, "shift": 1e-9, "shift-1e3": 1e-7, "rotation": 1e-9,
-              "rotation-multisphere": 1e-4, "mirror": 1e-9,
-              "mirror-multisphere": 1e-4}
+              "rotation-multisphere": 1e-6, "mirror": 1e-9,
+              "mirror-multisphere": 1e-8}
 TIMEOUT = 600
 
 # scatterer x theory alphabet for this check
@@ -205,7 +205,9 @@ def _run_rot(case, ck):
     psi = math.radians(ang)
     R = _rotz(psi)
     sspec, tspec = H.ST[st]
-    tol = 1e-4 if _is_ms(st) else 1e-9
+    # Multisphere: the iterative solution is converged to ~1e-6 relative
+    # [measured 2e-8 since the repairs of the multi-sphere code]
+    tol = 1e-6 if _is_ms(st) else 1e-9
     tm = st.startswith("tm-")
     if tm:
         tol = 1e-7
@@ -272,7 +274,7 @@ def _run_mirror(case, ck):
     st = case["st"]
     sspec, tspec = H.ST[st]
     # T-matrix solutions reproduce their symmetries to ~3e-9 [floor 2.4e-9]
-    tol = 1e-4 if _is_ms(st) else (1e-7 if st.startswith("tm-") else 1e-9)
+    tol = 1e-8 if _is_ms(st) else (1e-7 if st.startswith("tm-") else 1e-9)
     fps = []
     # (a) general mirror y -> -y with x polarization (the mirror plane
     # contains the optical axis and the polarization)
